@@ -418,8 +418,9 @@ def observe_drawing(case):
     n = len(subs)
     while True:      # angles with gaps of at least 35 degrees
         ang = sorted(rnd.uniform(0, 360) for _ in range(n))
-        if all((ang[(k + 1) % n] - ang[k]) % 360 >= 35 for k in range(n)):
-            break
+        if all((ang[(k + 1) % n] - ang[k]) % 360 >= 35 for k in range(n)) and \
+                (n == 4 or all(abs((ang[a] - ang[b]) % 360 - 180) >= 15 for a in range(n) for b in range(a))):
+            break       # (three neighbours with two of them in line: a T-shaped drawing, which the programs read differently - ambiguous by the drawing rules)
     rnd.shuffle(ang)
     if case['h'] == 'explicit' and case.get('opposite'):      # the hydrogen opposite to the wedged atom
         hi = subs.index('H')
